@@ -439,8 +439,23 @@ func c16ScenarioRouting(r *sim.Run) {
 	// clean pairs must be connected to each other
 	for _, a := range accs { // (in acceptor order: the first failure found is the one reported)
 		sec := a.secret
-		as, cs := bySecretA[sec], bySecretC[sec]
-		if len(as) != 1 || len(cs) != 1 {
+		// acceptors that the listener REFUSED because the secret was already registered never
+		// waited for a connection; the one that was registered is still "the caller waiting for
+		// that secret" and must get the session
+		var as []*c16Acceptor
+		for _, x := range bySecretA[sec] {
+			if x.returned && x.err != nil && strings.Contains(x.err.Error(), "already registered") {
+				if x == a {
+					as = nil
+					break
+				}
+				r.Probe("routing/duplicate-accept-refused")
+				continue
+			}
+			as = append(as, x)
+		}
+		cs := bySecretC[sec]
+		if len(as) != 1 || as[0] != a || len(cs) != 1 {
 			continue
 		}
 		c := cs[0]
